@@ -4,6 +4,7 @@ import (
 	"fmt"
 	"go/token"
 	"go/types"
+	"sort"
 	"strings"
 
 	"golang.org/x/tools/go/ssa"
@@ -170,6 +171,99 @@ func runC11(c *Ctx) {
 
 	r4 := c.Rule("R4", "no process-wide state: package-level variables are only read after init (rule registry excepted)", 1)
 	noProcessState(c, r4, nil)
+
+	r6 := c.Rule("R6", "a schema-owned reference is stored into a document only through a link field", 10)
+	c11PlantedSchemaPointers(c, r6, e, scope)
+}
+
+// c11PlantedSchemaPointers: validation points document nodes at schema nodes through its link fields (Definition,
+// ExpectedType, ObjectDefinition ...); nothing is ever written through those. The syntactic fields of a document
+// (children, arguments, values, types, directives — the fields the parser fills) are different: the walker descends
+// through them and annotates every node it reaches, and rules and later stages may edit them. A schema-owned pointer
+// stored into a syntactic field (a default value planted as a child of a literal) makes those writes land in the schema.
+// Decided: every store in the validation scope whose target is a non-link field of an ast node (or an element appended
+// to such a field) and whose value is schema memory by the ownership analysis.
+func c11PlantedSchemaPointers(c *Ctx, r *RuleResult, e *effects, scope map[*ssa.Function]bool) {
+	p := c.P
+	var fns []*ssa.Function
+	for fn := range scope {
+		if p.inModule(fn) {
+			fns = append(fns, fn)
+		}
+	}
+	sort.Slice(fns, func(i, j int) bool { return p.FuncName(fns[i]) < p.FuncName(fns[j]) })
+	astNode := func(t *types.Named) bool {
+		return t != nil && t.Obj().Pkg() != nil && strings.HasSuffix(t.Obj().Pkg().Path(), "/ast")
+	}
+	// the values an append adds: elements of the variadic array, or the spread slice itself
+	appended := func(v ssa.Value) []ssa.Value {
+		call, ok := v.(*ssa.Call)
+		if !ok {
+			return nil
+		}
+		if b, ok := call.Common().Value.(*ssa.Builtin); !ok || b.Name() != "append" || len(call.Common().Args) != 2 {
+			return nil
+		}
+		arg := call.Common().Args[1]
+		if sl, ok := arg.(*ssa.Slice); ok {
+			if al, ok := sl.X.(*ssa.Alloc); ok {
+				var out []ssa.Value
+				for _, ref := range *al.Referrers() {
+					if ia, ok := ref.(*ssa.IndexAddr); ok {
+						for _, r2 := range *ia.Referrers() {
+							if st, ok := r2.(*ssa.Store); ok && st.Addr == ssa.Value(ia) {
+								out = append(out, st.Val)
+							}
+						}
+					}
+				}
+				return out
+			}
+		}
+		return []ssa.Value{arg}
+	}
+	for _, fn := range fns {
+		allInstrs(fn, func(in ssa.Instruction) {
+			st, ok := in.(*ssa.Store)
+			if !ok {
+				return
+			}
+			fa, ok := st.Addr.(*ssa.FieldAddr)
+			if !ok {
+				return
+			}
+			n, f, _, _ := fieldOf(fa)
+			if !astNode(n) || e.own.exclusive[n.Obj().Name()] {
+				return // schema nodes: R1
+			}
+			key := n.Obj().Name() + "." + f
+			if e.own.linkFields[key] {
+				return
+			}
+			vals := []ssa.Value{st.Val}
+			if ap := appended(st.Val); ap != nil {
+				vals = ap
+			}
+			bad := ""
+			for _, v := range vals {
+				v = stripConv(v)
+				if !isRefType(v.Type()) {
+					continue
+				}
+				if _, isStr := v.Type().Underlying().(*types.Basic); isStr {
+					continue
+				}
+				if why := e.own.ownedReason(v); why != "" {
+					bad = why
+				}
+			}
+			if bad == "" {
+				r.OK(fmt.Sprintf("%s stores into %s at %s", p.FuncName(fn), key, p.Pos(st.Pos())), "the stored reference is not schema memory")
+				return
+			}
+			r.Fail(st.Pos(), p.FuncName(fn), "schema memory stored into "+key, fmt.Sprintf("%s is a syntactic field (not one of the link fields validation uses to point at the schema) and the value stored is %s: the document now contains a schema node, and the walker's annotations and any later edit of the document land in the shared schema", key, bad))
+		})
+	}
 }
 
 // c11PerCallState: every module Global read from the scope must be write-once (only written by package init or the registry mutators).
